@@ -862,6 +862,8 @@ impl<'ast, 't> Visit<'ast> for Normaliser<'t> {
                 syn::BinOp::BitXorAssign(_) => Some("^"),
                 syn::BinOp::BitAndAssign(_) => Some("&"),
                 syn::BinOp::BitOrAssign(_) => Some("|"),
+                syn::BinOp::ShlAssign(_) => Some("<<"),
+                syn::BinOp::ShrAssign(_) => Some(">>"),
                 syn::BinOp::AddAssign(_) => Some("+"),
                 syn::BinOp::SubAssign(_) => Some("-"),
                 _ => None,
